@@ -563,3 +563,39 @@ PROPS["C10"] = dict(
                  "terminated pool); a deadlock is a violation, a wall-clock watchdog on real-thread runs is inconclusive",
                  SAN_ASSUME],
 )
+
+# ----------------------------------------------------------------------------- C12
+PROPS["C12"] = dict(
+    units={"cptr": dict(src=["harness/C12_counting_ptr.cpp"], flags=_SCHED_FLAGS)},
+    quick=[
+        R("cptr", "asan", 8, 150, ["mode=seq"]),
+        R("cptr", "plain", 4, 600, ["mode=seq"]),
+        R("cptr", "plain", 8, 120, ["mode=serial"]),
+        R("cptr", "asan", 4, 30, ["mode=serial"]),
+        R("cptr", "tsan", 4, 20, ["mode=jitter"], timeout=150),
+        R("cptr", "asan", 2, 20, ["mode=jitter"], timeout=150),
+    ],
+    thorough=[
+        R("cptr", "asan", 16, 15000, ["mode=seq"], timeout=7200),
+        R("cptr", "plain", 16, 8000, ["mode=serial"], timeout=7200),
+        R("cptr", "asan", 8, 1000, ["mode=serial"], timeout=7200),
+        R("cptr", "tsan", 8, 600, ["mode=jitter"], timeout=3600),
+        R("cptr", "asan", 4, 600, ["mode=jitter"], timeout=3600),
+    ],
+    rule="mode=seq: a case = 20 histories of 20..250 operations over 5 CountingPtr<Obj>, 2 CountingPtr<Der> and 2 "
+         "CountingPtr<const Obj> handle variables with the default deleter, a call-counting deleter or the no-delete "
+         "deleter: construction from raw pointers (also a second handle from the raw pointer of a managed object), "
+         "make_counting, copy/move assignment (self, and between handles of the same object), copy/move construction, "
+         "converting copies/moves from the derived handle, reset, member and free swap, unify on shared/unique/empty "
+         "handles, nullptr construction, comparisons. After every operation each handle's target, use_count()/unique()/"
+         "valid()/empty(), reference_count() of every referenced object == number of handles pointing at it, and live "
+         "objects == referenced objects (destroyed exactly when the last handle lets go; never with the no-delete "
+         "deleter; deleter calls == destructions). mode=serial/jitter: a case = 60 concurrent histories of 2-3 threads x "
+         "1-2 shared objects: copy, drop, move chains, publish/adopt/clear a handle in a mutex-protected mailbox, swap, "
+         "while the creator drops its handles; each object must die exactly once after the last handle of any thread is "
+         "gone (controlled schedules with every reference-count operation as a scheduling point; TSan/ASan with "
+         "jitter). Classes: deleter (seq), threads x objects (concurrent).",
+    require=dict(any=["seq_histories", "operations", "unify_shared", "concurrent_histories", "schedule_steps"]),
+    assumptions=[_SCHED_ASSUME, "after a move between two handles of the same object the source may be left either empty or "
+                 "untouched: the monitor takes what it observes and requires the counts to add up", SAN_ASSUME],
+)
